@@ -208,6 +208,7 @@ type vdFaultKV struct {
 	writes          int  // number of write transactions seen
 	failed          int
 	onWriteBody     func(n int) // hook called after the body of the n-th write ran, before commit
+	gate            func(ctx context.Context, kind string) // SCHED: called before every Read ("R") / Write ("W") transaction starts
 }
 
 func vdOpenKV(dir string) (*vdFaultKV, error) {
@@ -238,7 +239,11 @@ func (f *vdFaultKV) Close(ctx context.Context) error { return f.inner.Close(ctx)
 func (f *vdFaultKV) Write(ctx context.Context, fn func(stoabs.WriteTx) error, opts ...stoabs.TxOption) error {
 	f.mu.Lock()
 	drop := f.dropAfterCommit
+	gate := f.gate
 	f.mu.Unlock()
+	if gate != nil {
+		gate(ctx, "W")
+	}
 	if drop {
 		var kept []stoabs.TxOption
 		for _, o := range opts {
@@ -275,6 +280,12 @@ func (f *vdFaultKV) Write(ctx context.Context, fn func(stoabs.WriteTx) error, op
 }
 
 func (f *vdFaultKV) Read(ctx context.Context, fn func(stoabs.ReadTx) error) error {
+	f.mu.Lock()
+	gate := f.gate
+	f.mu.Unlock()
+	if gate != nil {
+		gate(ctx, "R")
+	}
 	return f.inner.Read(ctx, func(tx stoabs.ReadTx) error { return fn(vdReadTx{tx, f}) })
 }
 
@@ -284,6 +295,113 @@ func (f *vdFaultKV) WriteShelf(ctx context.Context, shelfName string, fn func(st
 
 func (f *vdFaultKV) ReadShelf(ctx context.Context, shelfName string, fn func(stoabs.Reader) error) error {
 	return f.inner.ReadShelf(ctx, shelfName, fn)
+}
+
+func (f *vdFaultKV) setGate(g func(ctx context.Context, kind string)) { f.mu.Lock(); f.gate = g; f.mu.Unlock() }
+
+// vdSched is SCHED for KV transactions: actors (goroutines identified by a context value) are parked before every
+// Read/Write transaction until the schedule grants them a step; so an execution is a function of the schedule.
+type vdSched struct {
+	mu      sync.Mutex
+	parked  map[int]chan struct{} // actor -> channel to release it
+	events  chan vdSchedEvent
+	nActors int
+}
+
+type vdSchedEvent struct {
+	actor int
+	kind  string // "R", "W" parked; "done"
+}
+
+type vdActorKey struct{}
+
+func vdNewSched(n int) *vdSched {
+	return &vdSched{parked: map[int]chan struct{}{}, events: make(chan vdSchedEvent, 64), nActors: n}
+}
+
+func (s *vdSched) ctx(actor int) context.Context {
+	return context.WithValue(context.Background(), vdActorKey{}, actor)
+}
+
+func (s *vdSched) gate(ctx context.Context, kind string) {
+	a, ok := ctx.Value(vdActorKey{}).(int)
+	if !ok {
+		return // not an actor (harness observation): never parked
+	}
+	ch := make(chan struct{})
+	s.mu.Lock()
+	s.parked[a] = ch
+	s.mu.Unlock()
+	s.events <- vdSchedEvent{a, kind}
+	<-ch
+}
+
+// run starts fn(actor) for each actor and grants steps in the order given by schedule (actor indices); when the
+// schedule is exhausted (or names an actor that is not parked) the remaining actors are drained round-robin.
+// Returns the trace of granted steps ("0R 1R 0W …"). ok=false if it timed out (harness trouble).
+func (s *vdSched) run(schedule []int, fn func(actor int), timeout time.Duration) (trace []string, ok bool) {
+	state := make([]string, s.nActors) // "", "R", "W", "done"
+	for a := 0; a < s.nActors; a++ {
+		go func(a int) {
+			fn(a)
+			s.events <- vdSchedEvent{a, "done"}
+		}(a)
+	}
+	deadline := time.After(timeout)
+	waitEvent := func() bool {
+		select {
+		case e := <-s.events:
+			state[e.actor] = e.kind
+			return true
+		case <-deadline:
+			return false
+		}
+	}
+	// every actor must first reach its first gate (or finish)
+	for i := 0; i < s.nActors; i++ {
+		if !waitEvent() {
+			return trace, false
+		}
+	}
+	grant := func(a int) bool {
+		s.mu.Lock()
+		ch := s.parked[a]
+		delete(s.parked, a)
+		s.mu.Unlock()
+		trace = append(trace, fmt.Sprintf("%d%s", a, state[a]))
+		state[a] = ""
+		close(ch)
+		// the actor runs until its next gate or its end
+		for state[a] == "" {
+			if !waitEvent() {
+				return false
+			}
+		}
+		return true
+	}
+	for _, a := range schedule {
+		if a < 0 || a >= s.nActors || state[a] == "done" || state[a] == "" {
+			continue
+		}
+		if !grant(a) {
+			return trace, false
+		}
+	}
+	for {
+		progressed := false
+		for a := 0; a < s.nActors; a++ {
+			if state[a] == "R" || state[a] == "W" {
+				if !grant(a) {
+					return trace, false
+				}
+				progressed = true
+			}
+		}
+		if !progressed {
+			break
+		}
+	}
+	return trace, true
 }
 
 func (f *vdFaultKV) armFailures(n int) { f.mu.Lock(); f.failNextWrites = n; f.mu.Unlock() }
